@@ -6,6 +6,7 @@ import (
 	"fmt"
 	"slices"
 	"strconv"
+	"strings"
 	"unsafe"
 
 	"github.com/paulsonkoly/calc/types/bytecode"
@@ -180,15 +181,17 @@ func (t Type) String() string {
 	case arrayT:
 		a := *(*[]Type)(t.ptr)
 
-		r := ""
-		if len(a) > 0 {
-			r += fmt.Sprintf("%v", a[0])
-
-			for _, v := range a[1:] {
-				r += ", " + fmt.Sprintf("%v", v)
+		// built in one buffer: appending to a string copies it for every element
+		var r strings.Builder
+		r.WriteString("[")
+		for i, v := range a {
+			if i > 0 {
+				r.WriteString(", ")
 			}
+			r.WriteString(v.String())
 		}
-		return "[" + r + "]"
+		r.WriteString("]")
+		return r.String()
 	}
 	panic("type not handled in String")
 }
